@@ -2,6 +2,7 @@ import FlVerif.Base.Py
 import FlVerif.Base.X
 import FlVerif.Op.PyExt
 import FlVerif.Op.FllText
+import FlVerif.Op.PyExtFllImport
 
 /-! # Externals of the translated import side of term parameters (`Term._parse`, `configure`, helpers of `Operation`)
 
@@ -21,9 +22,8 @@ is the instance with the ASCII classes (`asIdent_eq`).  `Op.strip_comments` gets
 
 namespace Op.FllIO
 
-/-- the exception class of the translated code that corresponds to an error of the model -/
-def Err.toPy : Err → Py.Err
-  | .syntax => .syntax | .value => .value | .key => .lookup
+-- `Err.toPy` (the exception class of the translated code that corresponds to an error of the model) is defined in
+-- `Op/PyExtFllImport.lean`
 
 end Op.FllIO
 
@@ -102,7 +102,10 @@ theorem lexLine_stripLine (s : List Char) :
       if (stripLine '#' s).isEmpty then .ok none
       else match (stripLine '#' s).span (· ≠ ':') with
         | (_, []) => .error .syntax
-        | (k, _ :: v) => .ok (some ⟨Key.ofText (String.ofList (trimChars k)), lexValue (Key.ofText (String.ofList (trimChars k))) (trimChars v)⟩) := rfl
+        | (k, _ :: v) =>
+          if (Key.ofText (String.ofList (trimChars k)) = .term ∨ Key.ofText (String.ofList (trimChars k)) = .rule) ∧ k ≠ trimChars k
+          then .ok (some ⟨.other (String.ofList k), textTok (trimChars v)⟩)
+          else .ok (some ⟨Key.ofText (String.ofList (trimChars k)), lexValue (Key.ofText (String.ofList (trimChars k))) (trimChars v)⟩) := rfl
 
 /-! ### `Op.scale`, `Op.bound` -/
 
